@@ -59,6 +59,8 @@ impl Hash for St {
 pub struct VmModel {
     pub slots: usize,
     pub values: usize,
+    /// states reached by this many operations are checked but not expanded
+    pub max_ops: u32,
 }
 
 impl VmModel {
@@ -120,7 +122,7 @@ impl VmModel {
     }
 
     pub fn ops(&self, st: &St, out: &mut Vec<Op>) {
-        if st.bad.is_some() {
+        if st.bad.is_some() || st.depth >= self.max_ops {
             return;
         }
         // simplest first, so that the first counterexample is also the shortest
